@@ -37,6 +37,7 @@ def shadow_queue(ad, pending, op, args, obs):
 def record(desper, K, seed, n_traces, n_calls):
     rnd = random.Random(seed)
     ad = WorldAdapter(desper, K)
+    ad.allow_quiet = False      # a recording observes every step
     acts = K['Acts']
     ids = sorted(K['Ids'])
     comps_all = sorted(K['Comps'])
